@@ -24,6 +24,7 @@ pub struct Prods {
     pub lambdas: bool,
     pub aborts: bool,
     pub traces: bool,
+    pub trace_args: bool,
     pub eq_types: Vec<Ty>,
 }
 
@@ -223,6 +224,17 @@ impl Gen {
             if p.traces && n >= 2 {
                 for b in self.exprs(ty, n - 1, ctx).iter() {
                     out.push(e(Expr::Trace("msg".into(), b.clone())));
+                }
+            }
+            if p.trace_args && n >= 3 {
+                for sp in splits(n - 1, 2) {
+                    let ops = self.exprs(&Ty::Int, sp[0], ctx);
+                    let bodies = self.exprs(ty, sp[1], ctx);
+                    for a in ops.iter() {
+                        for b in bodies.iter() {
+                            out.push(e(Expr::TraceArg(a.clone(), b.clone())));
+                        }
+                    }
                 }
             }
             if p.lambdas && n >= 3 {
